@@ -29,3 +29,18 @@ mod timeout_coord;
 
 /// Ends of two independent channels (for example the input and output channels of an agent).
 type Io = (ByteWriter, ByteReader);
+
+/// Verification hooks: re-exports of internal components for the model checking harness.
+#[cfg(swimos_verif)]
+pub mod verif_hooks {
+    pub use crate::agent::task_verif_hooks::*;
+    pub use crate::backpressure::recon::MapOperationReconEncoder;
+    pub use crate::backpressure::verif_hooks::*;
+    pub use crate::backpressure::{
+        BackpressureStrategy, InvalidKey, MapBackpressure, SupplyBackpressure, ValueBackpressure,
+    };
+    pub use crate::timeout_coord::{
+        agent_timeout_coordinator, downlink_timeout_coordinator,
+        Receiver, VoteResult, Voter,
+    };
+}
